@@ -49,6 +49,41 @@ def validate(traces, batch_events=60000):
     return verdicts, states
 
 
+REPO_TESTS = ["tests/test_tasks.py", "tests/test_xdeps.py", "tests/test_refs.py"]
+REPO_EXAMPLES = ["ex_expr.py", "ex_global.py", "ex_inplace_op.py", "ex_pickle.py", "ex_set.py", "ex_unregister.py", "ex_talk.py", "ex_verify.py", "tasks.py"]
+
+
+def repo_traces(scratch):
+    """the repository's own tests and examples on the scratch build, under the recorder (harness/rec_plugin.py; guard XDEPS_VERIF_TRACE).
+    test_manager_clone_verify_refresh corrupts the indices behind the manager's back on purpose and test_collisions registers 100000
+    tasks: both are left out.  -> (traces, info)"""
+    import subprocess
+    from .common import REPO, VERIF
+    out, info = [], {}
+    fd, path = tempfile.mkstemp(prefix="xdv-rt-", suffix=".json")
+    os.close(fd)
+    env = dict(os.environ, PYTHONPATH=f"{scratch}:{VERIF}", XDEPS_VERIF_TRACE=path, PYTHONHASHSEED="0")
+    try:
+        tests = [os.path.join(REPO, t) for t in REPO_TESTS if os.path.exists(os.path.join(REPO, t))]
+        r = subprocess.run(["/venv/bin/python", "-m", "pytest", "-q", "-p", "no:cacheprovider", "-p", "harness.rec_plugin", "--timeout=600", *tests,
+                            "-k", "not test_manager_clone_verify_refresh and not test_collisions"], env=env, cwd=REPO,
+                           stdout=subprocess.PIPE, stderr=subprocess.STDOUT, text=True)
+        info["repo_tests"] = r.stdout.strip().splitlines()[-1][:120] if r.stdout.strip() else "no output"
+        if os.path.getsize(path):
+            out += json.load(open(path))
+        exs = [os.path.join(REPO, "examples", e) for e in REPO_EXAMPLES if os.path.exists(os.path.join(REPO, "examples", e))]
+        r = subprocess.run(["/venv/bin/python", "-m", "harness.rec_plugin", path, *exs], env=env, cwd=tempfile.gettempdir(),
+                           stdout=subprocess.PIPE, stderr=subprocess.STDOUT, text=True)
+        try:
+            info["repo_examples"] = {os.path.basename(p): o for p, o in json.loads(r.stdout.strip().splitlines()[-1])}
+            out += json.load(open(path))
+        except Exception:
+            info["repo_examples"] = "recorder run failed: " + r.stdout[-200:]
+    finally:
+        os.remove(path)
+    return out, info
+
+
 def stage(v, prop, modes=("compiled",)):
     """adds the trace-validation coverage and violations of property `prop` to Verdict v"""
     q = get_tier() == "quick"
@@ -61,6 +96,11 @@ def stage(v, prop, modes=("compiled",)):
         fails, st, samples, extra = par.run_workers("harness.mgr_record", {"items": items, "scratch": scratch, "mode": mode}, 12, collect=("traces",))
         stats.update(st)
         traces = [t for key in sorted(extra["traces"]) for t in extra["traces"][key] if any(e["ev"] == "Begin" for e in t["events"])]   # (verify() clones managers)
+        rt, rinfo = repo_traces(scratch)
+        traces += rt
+        stats["repo_traces"] += len(rt)
+        stats["events"] += sum(len(t["events"]) for t in rt)
+        v.cov.setdefault("repo_runs_under_recorder", {})[mode] = rinfo
         verdicts, ts = validate(traces)
         tstates += ts
         known = 0
@@ -80,7 +120,7 @@ def stage(v, prop, modes=("compiled",)):
             ent = v.known_hits.setdefault("struct-cycle-order", [0, "recorded trace with a structural-cycle update"])
             ent[0] += known
     v.cov["rule"] += (" || second stage, ManagerTrace.tla (code -> spec): seeded random histories over 30 nested locations x 60 calls (consumer-before-producer definitions, "
-                      "redefinitions, in-place operators, unregister), chains of 1200 (5000 thorough) tasks defined producer-first and of 300 (1000) defined consumer-first, a 600 (2000) wide fan, recorded by "
+                      "redefinitions, in-place operators, unregister), chains of 1200 (5000 thorough) tasks defined producer-first and of 300 (1000) defined consumer-first, a 600 (2000) wide fan, and the repository's own tests (test_tasks, test_xdeps, test_refs) and examples, recorded by "
                       "harness-side wrappers and validated event by event: every Task.run triggered / at most once / not after a consumer, nothing triggered left un-run, no "
                       "expression-defined location stale at return (pull-model re-evaluation), index supports = derived from the registered tasks")
     for k in ("states",):
